@@ -569,10 +569,7 @@ def crossover_spec(rng, fn, par, par2=None):
 
 
 def classify_violation(kind, spec, info):
-    """finding keys of genuine defects reported to the coordinator and not (yet) repaired in /repo"""
-    if kind == 'mut' and spec['fn'] == 'single_drop' and spec['advice'] == 'with_direct_children' \
-            and info.get('n_after') == 0:
-        return 'C17.drop-with-children-empties'
+    """no known finding is attached to C17 (the defects found while building were repaired in /repo)"""
     return None
 
 
